@@ -135,6 +135,8 @@ def check(ctx, replay=None):
     for name, src in c15_fixed.bridges():
         path = os.path.join(d, f"{name}.rs"); open(path, "w").write(src)
         for b in BACKENDS:
+            if name in c15_fixed.ONLY and b not in c15_fixed.ONLY[name]:
+                continue
             variants = [[]] + ([["js.abi=spec"]] if b in ("js", "demo_gen") else []) + ([["kotlin.use_finalizers_not_cleaners=true"]] if b == "kotlin" else [])
             for extra in variants:
                 for ua in (c15_fixed.URL_ARGS if name.startswith("docs") else [[]]):
